@@ -1,7 +1,7 @@
 (* Props/C03.v -- the reader on specification-conformant files: line ends, blank removal,
    duplicate names.  Property theorems only. *)
-From Coq Require Import Lia.
-From PraatIO Require Import IO.IoModel IO.DupNames IO.CodecProofs IO.CrlfProofs.
+From Coq Require Import Lia String.
+From PraatIO Require Import IO.IoModel IO.DupNames IO.CodecProofs IO.CrlfProofs IO.ShortFileProofs IO.LongFileProofs IO.LongStyleProofs.
 
 (* a CRLF file and the LF file with the same content are parsed identically, in either layout *)
 Theorem C03_crlf_invariant_short s :
@@ -57,6 +57,48 @@ Proof.
   exact (long_text_field_roundtrip l tail A B).
 Qed.
 Print Assumptions C03_long_short_same_label.
+
+(* whole long-form files in a FAMILY of layouts -- any indentation made of blanks, any run of blanks
+   (also none) after a value, `]:` or `]` after an entry index, `item [k]` or `item[k]`, LF or CRLF
+   line ends: Praat's own layout and ELAN's are two members.  Whatever text splits at the keywords
+   into blocks of such a layout for the data g (decidable side condition lfile_ok_s, evaluated on
+   every generated long / ELAN file) is read back as exactly g: spans, tier order, types, names,
+   number tokens, labels -- for every label and single-line name *)
+Theorem C03_long_family_file s tab g data :
+  lfile_ok_s s tab g (crlf_to_lf data) = true ->
+  parse_long true data = Ok (rd_tg_long tab g).
+Proof. exact (parse_long_styled s tab g data). Qed.
+Print Assumptions C03_long_family_file.
+
+(* one entry block in any layout of the family *)
+Theorem C03_long_family_interval_block close ind trn trs j N1 N2 lab trail :
+  closeb close = true -> allsp ind = true -> allsp trn = true -> allsp trs = true ->
+  idx j = true -> numshape N1 = true -> numshape N2 = true -> allsp trail = true ->
+  parse_long_interval (ichunk_s close ind trn trs j N1 N2 lab ++ trail) = Ok (RI N1 N2 (strip lab)).
+Proof. exact (parse_ichunk_s close ind trn trs j N1 N2 lab trail). Qed.
+Print Assumptions C03_long_family_interval_block.
+
+(* non-vacuity: an ELAN-style file (no colon after entry indices, no blank after numbers, item[1]) with CRLF *)
+Example C03_long_family_example :
+  let tab := [(0, mkNum false [] (T "0")); (1, mkNum false [] (T "1.5")); (2, mkNum false [] (T "2.25E-05"))]%Z in
+  let g := mkDTG 0 2 [mkDT true (T "a ""b"" xmin = 3") 0 2 [DI 0 1 [34%N; 10%N; 61%N]; DI 1 2 (T "xmax = 7 ")];
+                      mkDT false (T "p") 0 2 [DP 1 [34%N]]]%Z in
+  let s := mkLS (T "]:") (T "]") (T "        ") (T "            ") [] (T " ") in
+  let nl := [13%N; 10%N] in
+  let data :=
+    T "File type = ""ooTextFile""" ++ nl ++ T "Object class = ""TextGrid""" ++ nl ++ nl
+    ++ T "xmin = 0" ++ nl ++ T "xmax = 2.25E-05" ++ nl ++ T "tiers? <exists> " ++ nl ++ T "size = 2 " ++ nl ++ T "item []: " ++ nl
+    ++ T "    item[1]:" ++ nl ++ T "        class = ""IntervalTier"" " ++ nl ++ T "        name = ""a """"b"""" xmin = 3"" " ++ nl
+    ++ T "        xmin = 0" ++ nl ++ T "        xmax = 2.25E-05" ++ nl ++ T "        intervals: size = 2 " ++ nl
+    ++ T "        intervals [1]" ++ nl ++ T "            xmin = 0" ++ nl ++ T "            xmax = 1.5" ++ nl
+    ++ T "            text = """"""" ++ [10%N] ++ T "="" " ++ nl
+    ++ T "        intervals [2]" ++ nl ++ T "            xmin = 1.5" ++ nl ++ T "            xmax = 2.25E-05" ++ nl
+    ++ T "            text = ""xmax = 7 "" " ++ nl
+    ++ T "    item[2]:" ++ nl ++ T "        class = ""TextTier"" " ++ nl ++ T "        name = ""p"" " ++ nl
+    ++ T "        xmin = 0" ++ nl ++ T "        xmax = 2.25E-05" ++ nl ++ T "        points: size = 1 " ++ nl
+    ++ T "        points [1]" ++ nl ++ T "            number = 1.5" ++ nl ++ T "            mark = """""""" " ++ nl in
+  lfile_ok_s s tab g (crlf_to_lf data) = true /\ parse_long true data = Ok (rd_tg_long tab g).
+Proof. vm_compute. split; reflexivity. Qed.
 
 Example C03_rename_example :
   open_names DupRename [[119%N]; [119%N]; [119%N; 95%N; 50%N]; [119%N]] []
